@@ -24,6 +24,8 @@ def main(tier, rep):
                                   quick_stride=4)
     traces = [L.run_program(cfg, steps) for cfg, steps in progs]
     L.validate(rep, traces, relevant, PROP)
+    from drivers import connmodel
+    connmodel.design_and_replay(rep, tier, PROP, relevant, interrupts=True)
     rep.set("evaluations", len(traces))
     rep.set("distinct_nontrivial", len({(t["h"]["kind"], t["cfg"]["max_pool"]) + tuple((s[1], s[2], s[3]) for s in t["steps"] if s[0] == "call" and s[3]) for t in traces}))
     rep.set("rule", "one execution per (stack, pool size, warm/fresh, op, noreply, interruption point = k-th socket call of a type, interrupt kind, follow-ups); "
